@@ -21,6 +21,7 @@ func runExtras(l *loaded, run *PropRun, prop, tier string) {
 	switch prop {
 	case "C16":
 		onceObligations(l, run)
+		initialiserCallObligation(l, run)
 		frameGlobalObligations(l, run, exportedEntryPoints(l))
 		frameMetaObligations(l, run, expanderEntries)
 		for _, k := range expanderEntries {
@@ -30,6 +31,7 @@ func runExtras(l *loaded, run *PropRun, prop, tier string) {
 		}
 	case "C17":
 		onceObligations(l, run)
+		initialiserCallObligation(l, run)
 		frameGlobalObligations(l, run, exportedEntryPoints(l))
 		lockObligations(l, run, "simpleCache", "store", "lock")
 		frameReadonlyObligations(l, run, map[string]bool{"MarshalJSON": true, "JSONLookup": true, "Validations": true, "GobEncode": true,
